@@ -246,7 +246,9 @@ Definition kvs_after (i : N) (p : prim) (m : gmap string kvent) : gmap string kv
 Definition tombs_after (i : N) (p : prim) (s : st) : gmap string N :=
   match p with
   | PKvDel k => <[k := i]> (tombs s)
-  | PKvDelTree p => if bool_decide (p = "") then tombs s else <[p := i]> (tombs s)
+  | PKvDelTree p =>
+    let t := filter (fun kt : string * N => has_prefix p kt.1 = false) (tombs s) in
+    if bool_decide (p = "") then t else <[p := i]> t
   | PKvDelSess sid => ((fun _ => i) <$> filter (fun kv => kv_sess kv.2 = sid) (kvs s)) ∪ tombs s
   | PReap upto => filter (fun kt => upto < kt.2) (tombs s)
   | _ => tombs s
